@@ -112,7 +112,7 @@ class LifeWorld(object):
         k = op["op"]
         self.stats["op:" + k] += 1
         if k == "fire":
-            self.bus.fire(op["name"])
+            self.bus.fire(op["name"], op.get("payload"))
         elif k == "deliver":
             for _ in range(op.get("n", 1)):
                 if not self.bus.queue:
@@ -243,7 +243,10 @@ def gen_life(rng):
     for _ in range(rng.choice([10, 20, 40, 80])):
         r = rng.random()
         if r < 0.25:
-            ops.append({"op": "fire", "name": rng.choice(EVENT_POOL)})
+            ev = {"op": "fire", "name": rng.choice(EVENT_POOL)}
+            if ev["name"].startswith("Print") and rng.random() < 0.5:
+                ev["payload"] = {"name": "a.gcode", "path": "a.gcode", "origin": rng.choice(["local", "sdcard"])}
+            ops.append(ev)
             if rng.random() < 0.6:
                 ops.append({"op": "deliver", "n": 1})
         elif r < 0.40:
